@@ -223,7 +223,7 @@ fn h1_box(prop: &str, thorough: bool) -> Vec<(Body, usize)> {
                     bound = 1;
                 }
                 let mut push = |c: H1, b: usize| v.push((Body::H1(c), b));
-                let base = H1 { threads: t, queue: q, sets: s, err_at: None, consumer: Consumer::Drain, reader_init_fails: false, dataset_init_fail_at: None };
+                let base = H1 { threads: t, queue: q, sets: s, err_at: None, consumer: Consumer::Drain, reader_init_fails: false, dataset_init_fail_at: None, plain: false };
                 match prop {
                     "C07" => {
                         push(base.clone(), bound);
@@ -287,6 +287,18 @@ fn h1_box(prop: &str, thorough: bool) -> Vec<(Body, usize)> {
                         }
                     }
                     _ => {}
+                }
+                // the Default-based wrapper `read_parallel` (reader by value, data sets from Default): the
+                // draining and the failing-reader variant with few preemptions (the wrapper adds no
+                // synchronisation of its own; what is checked is that it passes everything on)
+                if s >= 1 && s <= 3 {
+                    let b = if t >= 2 { bound.min(1) } else { bound.min(2) };
+                    push(H1 { plain: true, ..base.clone() }, b);
+                    push(H1 { plain: true, err_at: Some(s - 1), ..base.clone() }, b);
+                    if prop == "C08" || prop == "C15" {
+                        push(H1 { plain: true, err_at: Some(s - 1), consumer: Consumer::StopAtError, ..base.clone() }, b);
+                        push(H1 { plain: true, consumer: Consumer::StopAfter(1), ..base.clone() }, b);
+                    }
                 }
             }
         }
@@ -469,7 +481,7 @@ fn main() {
     if args[1] == "one" {
         // debugging aid: parmc one <threads> <queue> <sets> <bound>
         let n = |i: usize| args[i].parse::<usize>().unwrap();
-        let job = Job { body: Body::H1(H1 { threads: n(2) as u32, queue: n(3), sets: n(4), err_at: None, consumer: Consumer::Drain, reader_init_fails: false, dataset_init_fail_at: None }), bound: n(5), max_executions: 50_000_000, prefix: vec![] };
+        let job = Job { body: Body::H1(H1 { threads: n(2) as u32, queue: n(3), sets: n(4), err_at: None, consumer: Consumer::Drain, reader_init_fails: false, dataset_init_fail_at: None, plain: false }), bound: n(5), max_executions: 50_000_000, prefix: vec![] };
         if args.len() > 6 {
             let depth = n(6);
             let t = std::time::Instant::now();
@@ -545,7 +557,7 @@ fn main() {
     });
     // self-check of the partitioning on a small search: same schedule count and outcome classes
     {
-        let probe = Job { body: Body::H1(H1 { threads: 1, queue: 2, sets: 3, err_at: None, consumer: Consumer::Drain, reader_init_fails: false, dataset_init_fail_at: None }), bound: 2, max_executions: u64::MAX, prefix: vec![] };
+        let probe = Job { body: Body::H1(H1 { threads: 1, queue: 2, sets: 3, err_at: None, consumer: Consumer::Drain, reader_init_fails: false, dataset_init_fail_at: None, plain: false }), bound: 2, max_executions: u64::MAX, prefix: vec![] };
         let whole = explore(&probe);
         if whole.violation.is_none() {
             let mut n = 0;
